@@ -1285,3 +1285,159 @@ Module BlockTreesReal.
   Qed.
   Print Assumptions C04_block_layout_pass_example.
 End BlockTreesReal.
+
+(* ------------------------------------------------------------------------------------------------------------ *)
+(** * Whole FLEX containers, and whole trees of block containers, flex containers and leaves (wave 6)
+
+   `flex_alg` (Model/FlexAlg.v) is ALL of compute_flexbox_layout as a resumption over the engine interface (every measure_child_size /
+   perform_child_layout a query, every set_unrounded_layout a stored layout), tied bit for bit to the implementation by `vh flexalg`.
+   The relational proof (Proofs/FlexRelKit.v one lemma per loop combinator; FlexRelItems.v, FlexRelCross.v, FlexRelFinal.v one per phase:
+   item generation, flex base sizes with their measuring queries, line collection, container main size -- all three branches --, flexible
+   lengths, hypothetical cross sizes, baselines, line cross sizes, align-content stretch, used cross sizes, main-axis distribution, cross-axis
+   margins / alignment, container cross size, line offsets, the final pass with its walk order, the absolute pass through the translated
+   kernel, the hidden pass) walks both runs in lockstep.  There is exactly ONE absolute length in the whole algorithm: the floor
+   `f32_max(1.0, flex_shrink * inner_flex_basis)` of determine_container_main_size (known finding flex-intrinsic-shrink-factor-floor).
+   `flex_alg_t tau` (Model/FlexAlgT.v) is flex_alg with that constant as a parameter. *)
+From TV Require Model.FlexAlgBase Model.FlexAlg Model.FlexAlgT Model.FlexAlgRel Model.BlockFlexEngine Model.BlockFlexK Model.BlockFlexExample.
+From TV Require Proofs.FlexRelFinal Proofs.FlexHomog Proofs.BlockFlexRel Proofs.BlockFlexExamples.
+Module FlexTrees.
+  Import TV.Model.Common TV.Model.Leaf TV.Model.Scale TV.Model.FlexAlgBase TV.Model.FlexAlg TV.Model.FlexAlgT TV.Model.FlexAlgRel.
+  Import TV.Model.Engine TV.Model.EngineRel TV.Proofs.EngineRelProofs.
+  Import TV.Model.BlockFlexEngine TV.Model.BlockFlexK TV.Model.BlockFlexExample.
+  Import TV.Proofs.FlexRelFinal TV.Proofs.FlexHomog TV.Proofs.BlockFlexRel TV.Proofs.BlockFlexExamples.
+  Import ListNotations.
+
+  Notation FAlgRel k := (AlgRel (FIn XQ) (LayoutOutput XQ) (FLay XQ) (fin_rel k) (output_rel k) (flay_rel k)).
+
+  (* the floor-parametrised form at the source's constant IS the model's function *)
+  Theorem C04_flex_floor_form : forall (s : FStyle XQ) st i, flex_alg_t one s st i = flex_alg s st i.
+  Proof. intros. reflexivity. Qed.
+  Print Assumptions C04_flex_floor_form.
+
+  (* EXACT: scaling every length of the container's style, of its children's styles, of the input AND the floor by k > 0 scales every
+     query the algorithm issues, every layout it stores and its result by k, given scaled answers.  No premise on styles, inputs or answers
+     (NaN and infinities included); the floor only has to be positive. *)
+  Theorem C04_flex_algorithm_floor_as_length : forall k tau tau', 0 < k -> sc k tau tau' -> gtb tau zero = true ->
+    AlgoRel (FStyle XQ) (FIn XQ) (LayoutOutput XQ) (FLay XQ) (fstyle_rel k) (fin_rel k) (output_rel k) (flay_rel k)
+            (flex_alg_t tau) (flex_alg_t tau').
+  Proof. exact flex_alg_t_homogeneous. Qed.
+  Print Assumptions C04_flex_algorithm_floor_as_length.
+
+  (* PARTIAL: `flex_alg` itself -- the floor 1.0 at both scales -- on the class where the floor cannot be reached: the container's main
+     size is not computed from its items' content contributions (its inner main size is known, or the main-axis available space is
+     definite, or it wraps under a min-content constraint): `flex_main_not_intrinsic`, a function of the container's style and input only.
+     Missing: the intrinsic branch of determine_container_main_size, where the statement is FALSE (next theorem). *)
+  Theorem C04_flex_algorithm_homogeneous_partial : forall k s s' st st' i i', 0 < k ->
+    fstyle_rel k s s' -> Forall2 (fstyle_rel k) st st' -> fin_rel k i i' -> flex_main_not_intrinsic s i = true ->
+    FAlgRel k (flex_alg s st i) (flex_alg s' st' i').
+  Proof. exact flex_alg_homogeneous_partial. Qed.
+  Print Assumptions C04_flex_algorithm_homogeneous_partial.
+
+  (* the class is invariant under the scaling *)
+  Theorem C04_flex_main_not_intrinsic_invariant : forall k s s' i i', 0 < k -> fstyle_rel k s s' -> fin_rel k i i' ->
+    flex_main_not_intrinsic s' i' = flex_main_not_intrinsic s i.
+  Proof. exact flex_main_not_intrinsic_rel. Qed.
+  Print Assumptions C04_flex_main_not_intrinsic_invariant.
+
+  (* REFUTED outside the class, on the whole resumption, with the witness of C04_flex_intrinsic_refuted: a row container under max-content
+     with one item (flex-basis 1, flex-shrink 1/2, flex-grow 1) whose content is 1/2 x 10; everything x 4 *)
+  Theorem C04_flex_algorithm_homogeneous_refuted :
+    exists k s st i, 0 < k /\
+      ~ FAlgRel k (flex_alg s st i) (flex_alg (fstyle_scale k s) (map (fstyle_scale k) st) (fin_scale k i)).
+  Proof. exact flex_alg_not_homogeneous. Qed.
+  Print Assumptions C04_flex_algorithm_homogeneous_refuted.
+  (* its values: the container's width is 1/2, and 0 (expected 2) after scaling *)
+  Theorem C04_flex_algorithm_witness_values :
+    option_map (fun r => out_size (fst r)) (alg_run _ _ _ 20 (wit_oracle (Fin (1#2)) (Fin 10)) (flex_alg wit_container [wit_item (Fin 1)] wit_input))
+      = Some (mkSize (Fin (1#2)) (Fin 10)) /\
+    option_map (fun r => out_size (fst r)) (alg_run _ _ _ 20 (wit_oracle (Fin 2) (Fin 40)) (flex_alg wit_container [wit_item (Fin 4)] wit_input))
+      = Some (mkSize (Fin 0) (Fin 40)).
+  Proof. exact (conj wit_run_1 wit_run_4). Qed.
+  Print Assumptions C04_flex_algorithm_witness_values.
+
+  (* `related` is `scaled` *)
+  Theorem C04_flex_scaled_is_related : forall k (s : FStyle XQ) (i : FIn XQ) (l : FLay XQ),
+    fstyle_rel k s (fstyle_scale k s) /\ fin_rel k i (fin_scale k i) /\ flay_rel k l (flay_scale k l).
+  Proof. intros. exact (conj (fstyle_rel_scale k s) (conj (fin_rel_scale k i) (flay_rel_scale k l))). Qed.
+  Print Assumptions C04_flex_scaled_is_related.
+
+  (* ---- whole trees: the engine of Model/BlockFlexK.v (leaves: compute_leaf_layout with the node's measure function; display:flex nodes with
+     children: flex_alg_t tau; other nodes with children: the block algorithm with the real preprocessing and absolute routine) *)
+  Notation trelk k := (trel (BFNode XQ) (FIn XQ) (LayoutOutput XQ) (FLay XQ) (bfnode_rel k) (fin_rel k) (output_rel k) (flay_rel k)).
+  Notation res_relk k := (res_rel (BFNode XQ) (FIn XQ) (LayoutOutput XQ) (FLay XQ) (bfnode_rel k) (fin_rel k) (output_rel k) (flay_rel k)).
+
+  (* the premise of C04_engine, for the two engines that differ by the floor *)
+  Theorem C04_blockflex_algorithm_floor_as_length : forall k tau tau', 0 < k -> sc k tau tau' -> gtb tau zero = true ->
+    AlgoRel (BFNode XQ) (FIn XQ) (LayoutOutput XQ) (FLay XQ) (bfnode_rel k) (fin_rel k) (output_rel k) (flay_rel k)
+            (bfn_algo tau BlockEngine.block_pre BlockAbs.abs_child_block) (bfn_algo tau' BlockEngine.block_pre BlockAbs.abs_child_block).
+  Proof. intros k tau tau' Hk. exact (bfn_algo_homog_real k Hk tau tau'). Qed.
+  Print Assumptions C04_blockflex_algorithm_floor_as_length.
+
+  (* EXACT, no premise on the tree: the conclusion of C04_engine (any related trees -- caches and stored layouts included, e.g. both fresh --,
+     related inputs, same fuel: both evaluations fail or both return, related outputs and related trees: EVERY stored layout and cache entry
+     scaled) for the engine with floor tau on the tree and the engine with floor k * tau on the scaled tree *)
+  Theorem C04_blockflex_engine_floor_as_length : forall k tau tau', 0 < k -> sc k tau tau' -> gtb tau zero = true ->
+    forall f t t' i i', trelk k t t' -> fin_rel k i i' ->
+      oprel (res_relk k) (bf_memo_t tau f t i) (bf_memo_t tau' f t' i').
+  Proof.
+    intros k tau tau' Hk Ht Hp. unfold bf_memo_t. apply (bf_engine_threshold k Hk tau tau'); try assumption.
+    - apply (BlockAlgRel.block_pre_rel k Hk (ScaleBlock.bstyle_rel k) (BlockAlgRel.wrel_of_rel k Hk)).
+    - apply (BlockAbsRel.abs_child_block_homog k Hk).
+  Qed.
+  Print Assumptions C04_blockflex_engine_floor_as_length.
+
+  (* PARTIAL: the engine of the implementation (floor 1.0 at both scales) under the premise that NO FLEX CONTAINER OF THE SCALED TREE IS IN
+     THE EXCLUDED CLASS, in its exact form: the evaluation of the scaled tree does not depend on the floor being 1 or k (a floored item is
+     the only thing that can make the two evaluations differ).  Missing: trees with an intrinsically sized flex container one of whose items
+     has content contribution < flex basis and flex_shrink * inner_flex_basis < max(1, k): there the statement is false (C04_blockflex_engine_refuted). *)
+  Theorem C04_blockflex_engine_partial : forall k, 0 < k ->
+    forall f t t' i i', trelk k t t' -> fin_rel k i i' ->
+      bf_memo_t (Fin k) f t' i' = bf_memo f t' i' ->
+      oprel (res_relk k) (bf_memo f t i) (bf_memo f t' i').
+  Proof. exact bf_engine_partial. Qed.
+  Print Assumptions C04_blockflex_engine_partial.
+
+  (* the functional reading on fresh trees: scaled tree (every style length, every measure function) and scaled input -- the run succeeds iff
+     the original does, and the root output and EVERY node's stored unrounded layout are the original ones x k *)
+  Theorem C04_blockflex_engine_scaled_layouts_partial : forall k, 0 < k ->
+    forall f (t t' : sk (BFNode XQ)) i o t1,
+      skrel (BFNode XQ) (bfnode_rel k) t t' ->
+      bf_memo_t (Fin k) f (bfk_fresh t') (fin_scale k i) = bf_memo f (bfk_fresh t') (fin_scale k i) ->
+      bf_memo f (bfk_fresh t) i = Some (o, t1) ->
+      exists o' t1',
+        bf_memo f (bfk_fresh t') (fin_scale k i) = Some (o', t1') /\ output_rel k o o' /\
+        Forall2 (flay_rel k) (lays (BFNode XQ) (FIn XQ) (LayoutOutput XQ) (FLay XQ) t1) (lays (BFNode XQ) (FIn XQ) (LayoutOutput XQ) (FLay XQ) t1').
+  Proof. exact bf_engine_scaled_layouts. Qed.
+  Print Assumptions C04_blockflex_engine_scaled_layouts_partial.
+
+  (* non-vacuity (Model/BlockFlexExample.v): 10 nodes -- block root, leaf, FLEX ROW container stretched by the block root (definite main size)
+     with a growing item (flex-basis 40), a fixed-width item, a nested FLEX COLUMN container sized by content (intrinsic main size when it is
+     measured), a display:none child and an absolute child --, k = 5/2: the premises hold, both sides evaluated, boxes as listed, every field
+     of every stored layout and the root output x 5/2 *)
+  Example C04_blockflex_engine_example :
+    skrel (BFNode XQ) (bfnode_rel (5 # 2)) fx_tree (fx_tree_scaled (5 # 2)) /\
+    fin_rel (5 # 2) fx_input (fin_scale (5 # 2) fx_input) /\
+    bf_memo_t (Fin (5 # 2)) fx_fuel (bfk_fresh (fx_tree_scaled (5 # 2))) (fin_scale (5 # 2) fx_input)
+      = bf_memo fx_fuel (bfk_fresh (fx_tree_scaled (5 # 2))) (fin_scale (5 # 2) fx_input) /\
+    fx_boxes fx_tree fx_input
+      [fbox 0 0 0 0; fbox 4 4 300 10; fbox 4 14 300 42; fbox 3 3 188 36; fbox 202 3 64 36; fbox 272 3 25 36; fbox 0 0 25 8; fbox 0 10 25 8;
+       fbox 0 0 0 0; fbox 2 3 10 10] = true /\
+    fx_scaled_ok (5 # 2) fx_tree (fx_tree_scaled (5 # 2)) fx_input = true.
+  Proof.
+    split; [apply fx_scaled_rel; reflexivity|]. split; [apply fin_rel_scale|].
+    split; [exact fx_insensitive_52|]. split; [exact fx_boxes_ok|exact fx_scaled_ok_52].
+  Qed.
+  Print Assumptions C04_blockflex_engine_example.
+
+  (* REFUTED without the premise: the two-node tree of the known finding (a flex row root sized by content, one item flex-basis 1,
+     flex-shrink 1/2, flex-grow 1, measured 1/2 x 10), k = 4: root width 1/2, and 0 instead of 2 for the scaled tree -- 2 with the floor scaled *)
+  Theorem C04_blockflex_engine_refuted :
+    skrel (BFNode XQ) (bfnode_rel 4) fw_tree (fw_tree_scaled 4) /\ fin_rel 4 fw_input (fin_scale 4 fw_input) /\
+    ~ oprel (res_relk 4) (bf_memo fx_fuel (bfk_fresh fw_tree) fw_input) (bf_memo fx_fuel (bfk_fresh (fw_tree_scaled 4)) (fin_scale 4 fw_input)) /\
+    fx_root_width one fw_tree fw_input = Some (Fin (1#2)) /\ fx_root_width one (fw_tree_scaled 4) (fin_scale 4 fw_input) = Some (Fin 0) /\
+    fx_root_width (Fin 4) (fw_tree_scaled 4) (fin_scale 4 fw_input) = Some (Fin 2).
+  Proof.
+    split; [apply fx_scaled_rel; reflexivity|]. split; [apply fin_rel_scale|]. split; [exact fw_not_related|exact fw_widths].
+  Qed.
+  Print Assumptions C04_blockflex_engine_refuted.
+End FlexTrees.
